@@ -41,14 +41,30 @@ def export_edges(cfg, sc):
 
 
 def export_walks(cfg, sc, num, seed):
-    """seeded random walks of the specification (tlc -simulate); the cfg prints a walk when it reaches SimDepth"""
+    """seeded random walks of the specification (tlc -simulate, one worker per run so that TLC's walk counter names the
+    walk); the cfg prints one STEP line per step; several runs with derived seeds go in parallel"""
     depth = int(cfg_const(cfg, "SimDepth")) + 1
-    workers = 2
-    cases, st = V.export_cases(SPEC, cfg, sc, timeout=900, workers=workers,
-                               extra=["-simulate", "num=%d" % max(1, num // workers), "-depth", str(depth), "-seed", str(seed)])
-    behs = to_behaviours(cases, int(cfg_const(cfg, "BufCap")))
-    behs.sort(key=lambda b: json.dumps(b, sort_keys=True))
-    return behs, st
+    buf = int(cfg_const(cfg, "BufCap"))
+    runs = 4
+
+    def one(i):
+        steps, st = V.export_cases(SPEC, cfg, sc, tag="STEP", timeout=900, workers=1,
+                                   extra=["-simulate", "num=%d" % max(1, num // runs), "-depth", str(depth), "-seed", str(seed * 16 + i)])
+        walks = {}
+        for x in steps:
+            w = walks.setdefault(x["w"], dict(chunk=x["chunk"], tag=x["tag"], buf=buf, proc="rec", steps=[]))
+            if x["k"] == len(w["steps"]):
+                if w["steps"][-1] != x["s"]:
+                    raise V.Infra("simulation output of %s: two different steps %d in walk %d" % (cfg, x["k"], x["w"]))
+                continue    # printed once per candidate successor
+            if x["k"] != len(w["steps"]) + 1:
+                raise V.Infra("simulation output of %s is not in step order (walk %d step %d)" % (cfg, x["w"], x["k"]))
+            w["steps"].append(x["s"])
+        return [walks[k] for k in sorted(walks)]
+
+    with ThreadPoolExecutor(max_workers=runs) as ex:
+        parts = list(ex.map(one, range(runs)))
+    return [b for p in parts for b in p if len(b["steps"]) >= 8], None
 
 
 def run_shards(drv, behs, sc, tag):
@@ -184,8 +200,26 @@ def body(PROP, plan):
             except Exception as e:  # noqa
                 mc_err.append(e)
 
+        probe_out = []
+
+        def probes():
+            try:
+                for cfg, inv in p.get("probes", []):
+                    rc, out, wall = V.run_tlc(SPEC, cfg, sc, workers=4, timeout=1500)
+                    st = V.parse_tlc_stats(out)
+                    hit = ("Invariant %s is violated" % inv) in out
+                    if not hit:
+                        raise V.Infra("model probe %s: expected TLC to report a violation of %s (the recorded finding), got:\n%s" % (cfg, inv, out[-1500:]))
+                    V.log("[tlc] %s/%s (faithful model of a recorded finding): %s violated as expected, %d states, %.1fs" % (SPEC, cfg, inv, st["distinct"], wall))
+                    probe_out.append(dict(cfg=cfg, violated=inv, states=st["distinct"], wall_s=round(wall, 1)))
+            except Exception as e:  # noqa
+                mc_err.append(e)
+
         th = threading.Thread(target=model)
         th.start()
+        th2 = threading.Thread(target=probes)
+        if not os.environ.get("VERIF_EVMSYNC_NOMODEL"):
+            th2.start()
 
         # behaviours
         notes = {}
@@ -247,6 +281,8 @@ def body(PROP, plan):
                 raise V.Infra("the node panicked / gave up during replay without a property violation: %s" % json.dumps(panics[0])[:300])
 
         th.join()
+        if th2.is_alive() or th2.ident is not None:
+            th2.join()
         if mc_err:
             raise mc_err[0]
 
@@ -281,6 +317,7 @@ def body(PROP, plan):
             models=[dict(spec=SPEC, cfg=m["cfg"], states=m["distinct"], transitions=m["generated"], depth=m["depth"], wall_s=m["wall_s"],
                          exhaustive=True) for m in mc_out],
             model_invariants=plan["invariants"],
+            faithful_model_of_recorded_findings=probe_out,
             behaviours=dict(edge_cover_sampled=n_edge, random_walks=n_walk, with_real_l1_store=sum(1 for b in behs if b["proc"] == "l1"),
                             **notes),
             replay=dict(wall_s=replay_s, process_calls=nproc, with_events=nontriv, reorg_calls=nreorg, reorgs_deleting_rows=nreorg_rows,
